@@ -22,7 +22,8 @@
                 [prep] replaces them by [norm_query raw] and its [seg_bytes]; compared in [query_agree]. *)
 From TU Require Import Base C20_Model UCD_Model.
 From TU Require Import UAX29_Model NFKC_Model NFKC_Tie.
-From TU Require C01_Model Lines_Model C19_Lines.
+From TU Require C01_Model C12_Model Lines_Model C19_Lines.
+From Coq Require Import QArith.
 From TU Require Import Base C20_Model UCD_Model C20_Words.
 Open Scope N_scope.
 
@@ -55,6 +56,18 @@ Definition seg_key (k : word) : list bytes :=
   | None => map (fun b => [b]) k      (* not reached for a Rust String; keeps [concat (seg_key k) = k] unconditional *)
   end.
 Definition segs_of_dict (d : dict) : list (list bytes) := map (fun e : word * N => seg_key (fst e)) d.
+
+(** [get_closest] over Q with the model's own key segmentation — no oracle ([closest] with the oracle [segs_of_dict] is
+    this function: C20_BytesProofs.closest_segs_of_dict; the binary64 version [C20_Float.closest_fl] is proved equal to it) *)
+Definition kdist_m (norm : bool) (q : list bytes) (e : word * N) : Q := C12_Model.distance nofl norm q (seg_key (fst e)).
+Definition closest_m (norm : bool) (q : list bytes) (d : dict) : cres :=
+  match d with
+  | [] => CNone
+  | _ => match pass1 (map (fun e => (kdist_m norm q e, e)) d) None [] with
+         | [] => CNone
+         | t :: ts => CSome (pass2 t ts)
+         end
+  end.
 
 (** * the query as [get] / [get_closest] see it: [normalize(s, NFKC, true)] *)
 Definition norm_query (raw : str) : str := NFKC_Model.normalize_model NFKC_Model.NFKC true raw.
